@@ -133,8 +133,36 @@ func wrap(f *os.File, err error) (*File, error) {
 	if err != nil {
 		return nil, err
 	}
+	if Track {
+		tracked = append(tracked, f)
+	}
 	return &File{f: f, name: f.Name()}, nil
 }
+
+// Track, when set, registers every descriptor opened through this package so
+// that a single-threaded harness (the CRASH engine) can close what the library
+// leaks: SetState never closes its temporary file, and a crashed incarnation
+// closes nothing. Not safe for concurrent use; off by default.
+var (
+	Track   bool
+	tracked []*os.File
+)
+
+// CloseTracked closes every registered descriptor that is still open and
+// empties the registry. It returns how many were still open.
+func CloseTracked() int {
+	n := 0
+	for _, f := range tracked {
+		if f.Close() == nil {
+			n++
+		}
+	}
+	tracked = tracked[:0]
+	return n
+}
+
+// TrackedCount is the number of descriptors currently registered.
+func TrackedCount() int { return len(tracked) }
 
 func OpenFile(name string, flag int, perm FileMode) (*File, error) {
 	c, v := pre("OpenFile", name, "", flag, flag&(O_CREATE|O_TRUNC) != 0)
